@@ -1543,7 +1543,20 @@ class Interp:
                 self.assumptions.append((T('len', it), n))
                 if n == self.world.sym_iter_max:
                     self.inexact('symbolic iteration bounded at %d' % n)
-            return [T('elem', it, K(i)) for i in range(n)]
+            elems = [T('elem', it, K(i)) for i in range(n)]
+            if it.op == 'mcall' and it.args[1] in (
+                    'split', 'rsplit', 'splitlines', 'partition',
+                    'rpartition'):
+                # pieces of a str (bytes) are str (bytes)
+                base_t = it.args[0]
+                tag = 'str' if isinstance(base_t, K) and isinstance(
+                    base_t.v, str) else (self.types.get(base_t) or
+                                         self.path_types.get(base_t)) \
+                    if isinstance(base_t, T) else None
+                if tag in ('str', 'bytes'):
+                    for e_ in elems:
+                        self.types.setdefault(e_, tag)
+            return elems
         raise Inexact('iteration over %s' % type(it).__name__)
 
     def _guided_len(self, it):
